@@ -11,7 +11,8 @@
    loop), with the scope context threaded from statement to statement.
 
    _partial — the fragment is exactly the inductive definition [sok] / [boks]:
-   - one-line statements: typed and inferred declarations, assignment to a VARIABLE, call statements,
+   - one-line statements: typed and inferred declarations, assignment to a variable or to  a[i]  m.k
+     a[i][j].k ... (any chain of index and dot steps on a variable), call statements,
      return (with and without value), break; values / arguments / conditions in the expression
      fragment of C06_roundtrip.v ([top_ok], [item_ok]);
    - while statements, for statements (with and without loop variable, range with one, two or three
@@ -19,7 +20,7 @@
      statements (any nesting depth), blank lines between statements included (the formatter squeezes
      a run of blank statements into one line, and the tree compared is squeezed likewise:
      [body_trees]);
-   - NOT covered: func, on, assignment to a[i] / m.k, comments (Parser.v's trees do not carry
+   - NOT covered: func, on, comments (Parser.v's trees do not carry
      them), whole programs (parse_program with the signature pre-pass).
    The scoping side conditions are no longer stated on parser states: they are the conditions of the
    declarative scope checker of ParserScope.v on the checker's context G (declare / cvisible /
@@ -29,7 +30,7 @@
    statement's first argument does not start with  = . : :=  is proved: rt_head_not_assign.) *)
 From Coq Require Import List String NArith ZArith Bool Arith.
 From EvyV Require Import Base FmtAst Format Pratt Parser ParserRules ParserScope FormatParse FormatParseListProofs
-  FormatParseStmtProofs FormatParseBlockProofs.
+  FormatParseStmtProofs FormatParseTargetProofs FormatParseBlockProofs.
 From EvyV.Gen Require Import Prec.
 Import ListNotations.
 Local Open Scope nat_scope.
